@@ -97,6 +97,21 @@ func secretNeedles(secret string) map[string]string {
 		}
 		out[fmt.Sprintf("base64@%d", k)] = e
 	}
+	// a secret with a character that loggers escape (%q, JSON): its alphanumeric stretches of 8 or more
+	// characters give it away however the odd character is written
+	start := -1
+	for i := 0; i <= len(secret); i++ {
+		alnum := i < len(secret) && (secret[i] >= 'a' && secret[i] <= 'z' || secret[i] >= 'A' && secret[i] <= 'Z' || secret[i] >= '0' && secret[i] <= '9')
+		if alnum && start < 0 {
+			start = i
+		}
+		if !alnum && start >= 0 {
+			if i-start >= 8 && i-start < len(secret) {
+				out[fmt.Sprintf("stretch@%d", start)] = secret[start:i]
+			}
+			start = -1
+		}
+	}
 	return out
 }
 
@@ -481,6 +496,12 @@ func c16Gen(t *rapid.T) c16Case {
 	if rapid.IntRange(0, 7).Draw(t, "longsecret") == 0 {
 		// a JWT-sized token / a pass phrase: command lines beyond RFC 5321's 510 octets
 		c.Pass = strings.Repeat(c.Pass, rapid.SampledFrom([]int{12, 20, 40, 60}).Draw(t, "secretrepeat"))
+	}
+	if strings.HasPrefix(c.Mech, "SCRAM") && rapid.IntRange(0, 5).Draw(t, "kink") == 0 {
+		// a character in the middle that the password profile (PRECIS OpaqueString) refuses: the client
+		// gives up locally - and must not quote the password when it says why
+		k := len(c.Pass) / 2
+		c.Pass = c.Pass[:k] + rapid.SampledFrom([]string{"\t", "\u200b", "\u00ad", "\x01", "\u1100", "\u0085"}).Draw(t, "kinkrune") + c.Pass[k:]
 	}
 	c.Wrong = rapid.IntRange(0, 3).Draw(t, "wrong") == 0
 	c.Logger = rapid.SampledFrom([]string{"capture", "capture", "std", "json"}).Draw(t, "logger")
